@@ -448,3 +448,22 @@ Section PopFacts.
     intros t0 p0 t0' c0 Hn0 H0. destruct (or_climb_ok _ _ _ _ _ _ (in_box_b_true _ _ Hb) Hn0 H0) as (A & B & _). split; assumption.
   Qed.
 End PopFacts.
+
+(* ---------- model-based optimizers ---------- *)
+Require Import Smbo.
+Lemma pos_eqb_true (a b : pos) : pos_eqb a b = true -> a = b.
+Proof.
+  revert b. induction a as [|x a IH]; intros [|y b] H; cbn in H; try discriminate; [reflexivity|].
+  apply andb_prop in H. destruct H as [H1 H2]. apply Z.eqb_eq in H1. subst. f_equal. apply IH. exact H2.
+Qed.
+
+Theorem smbo_proposal_emit sp cons (comb : list pos) acq i p : dims_ok sp ->
+  forallb (emit_b sp cons) comb = true -> proposal_ok comb acq i p = true -> emit_ok sp cons p.
+Proof.
+  intros Hd HC HP. unfold proposal_ok in HP.
+  destruct (nth_error comb i) as [q|] eqn:E; [|discriminate]. destruct (nth_error acq i); [|discriminate].
+  apply andb_prop in HP. destruct HP as [HP _]. apply andb_prop in HP. destruct HP as [HP _]. apply pos_eqb_true in HP. subst q.
+  rewrite forallb_forall in HC. specialize (HC p (nth_error_In _ _ E)). unfold emit_b in HC.
+  apply andb_prop in HC. destruct HC as [HB HF]. split; [apply in_box_b_true; exact HB|].
+  destruct (feasible sp cons p) as [[|]|]; try discriminate. reflexivity.
+Qed.
